@@ -122,11 +122,19 @@ where
             SwarmControlMessage::ConnectionClosed {
                 ip_version,
                 announced_info_hashes,
+                out_message_consumer_id,
+                connection_id,
             } => {
                 let mut torrents = torrents.borrow_mut();
 
                 for (info_hash, peer_id) in announced_info_hashes {
-                    torrents.handle_connection_closed(info_hash, peer_id, ip_version);
+                    torrents.handle_connection_closed(
+                        info_hash,
+                        peer_id,
+                        ip_version,
+                        out_message_consumer_id,
+                        connection_id,
+                    );
                 }
 
                 #[cfg(aquatic_verif)]
